@@ -93,6 +93,9 @@ def swap_axes(self, axis1, axis2, recursive=True):
     obj = Qube.__new__(type(self))
     obj.__init__(new_values, new_mask, example=self)
     obj._readonly_ = self._readonly_
+    if obj._readonly_:              # NumPy may have returned a copy
+        Qube._array_to_readonly(obj._values_)
+        Qube._array_to_readonly(obj._mask_)
 
     if recursive:
         for (key, deriv) in self._derivs_.items():
@@ -165,6 +168,9 @@ def roll_axis(self, axis, start=0, recursive=True, rank=None):
     obj = Qube.__new__(type(self))
     obj.__init__(new_values, new_mask, example=self)
     obj._readonly_ = self._readonly_
+    if obj._readonly_:              # NumPy may have returned a copy
+        Qube._array_to_readonly(obj._values_)
+        Qube._array_to_readonly(obj._mask_)
 
     if recursive:
         for (key, deriv) in self._derivs_.items():
@@ -231,6 +237,9 @@ def move_axis(self, source, destination, recursive=True, rank=None):
     obj = Qube.__new__(type(self))
     obj.__init__(new_values, new_mask, example=self)
     obj._readonly_ = self._readonly_
+    if obj._readonly_:              # NumPy may have returned a copy
+        Qube._array_to_readonly(obj._values_)
+        Qube._array_to_readonly(obj._mask_)
 
     if recursive:
         for (key, deriv) in self._derivs_.items():
